@@ -76,6 +76,8 @@ def scalar(kind, txt, bits=None):
         return dict(kind="byte", dec=str(int(txt[2:], 2)))
     if k in ("int", "bigint"):
         return dict(kind=k, dec=txt)
+    if k == "bool":
+        return dict(kind="bool", dec="1" if txt == "true" else "0")
     return dict(kind=k, dec="0")
 
 
